@@ -5,6 +5,8 @@ package main
 import (
 	"bytes"
 	"fmt"
+	stdhtml "html"
+	"strconv"
 	"regexp"
 	"strings"
 	"sync"
@@ -681,6 +683,119 @@ func runC02(c *Ctx) {
 	codeBlockCases(c, nli)
 	var curS string
 	c.watchdog(900*time.Second, "spec-rewrite-hang", func() interface{} { return map[string]string{"markdown": curS} }, func() { specRewrites(c, mds[0], &curS) })
+	c.watchdog(600*time.Second, "escape-adjacency-hang", func() interface{} { return map[string]string{"markdown": curS} }, func() { escapeAdjacency(c, mds[0], &curS) })
+}
+
+// ---------- backslash escapes and character references glued to one another ----------
+// Every string of up to three tokens (references that are valid, unterminated, unknown or empty;
+// escapes of punctuation and of letters; the bare bytes they are made of) is written as paragraph
+// text, as a link title and as a fenced code info string.  What the text means is fixed by
+// sections 2.4 and 2.5 of the specification and computed here by specUnescape, independently of
+// goldmark: a backslash before ASCII punctuation stands for that character, `&name;` /
+// `&#digits;` / `&#xhex;` for their code point (U+FFFD for 0 and for out-of-range values),
+// everything else for itself.
+var escTokens = []string{"&", "&amp;", "&amp", "&#35;", "&#x23;", "&#X23;", "&#;", "&#0;", "&#x110000;", "&#12345678;", "\\!", "\\\\", "\\&", "\\a", "\\#", "\\;", "a", ";", "#", "!", "x", "&copy;", "&bogus;", "&ouml;", "3"}
+
+func specUnescape(s string) string {
+	var b strings.Builder
+	for i := 0; i < len(s); {
+		ch := s[i]
+		if ch == '\\' && i+1 < len(s) && strings.IndexByte("!\"#$%&'()*+,-./:;<=>?@[\\]^_`{|}~", s[i+1]) >= 0 {
+			b.WriteByte(s[i+1])
+			i += 2
+			continue
+		}
+		if ch == '&' {
+			if j := strings.IndexByte(s[i:], ';'); j > 1 {
+				body := s[i+1 : i+j]
+				if r, ok := specReference(body); ok {
+					b.WriteString(r)
+					i += j + 1
+					continue
+				}
+			}
+		}
+		b.WriteByte(ch)
+		i++
+	}
+	return b.String()
+}
+
+func specReference(body string) (string, bool) {
+	isAll := func(t, set string) bool {
+		for k := 0; k < len(t); k++ {
+			if strings.IndexByte(set, t[k]) < 0 {
+				return false
+			}
+		}
+		return t != ""
+	}
+	var v int64 = -1
+	switch {
+	case body[0] == '#' && len(body) > 1 && (body[1] == 'x' || body[1] == 'X'):
+		if h := body[2:]; isAll(h, "0123456789abcdefABCDEF") && len(h) <= 6 {
+			v, _ = strconv.ParseInt(h, 16, 64)
+		}
+	case body[0] == '#':
+		if d := body[1:]; isAll(d, "0123456789") && len(d) <= 7 {
+			v, _ = strconv.ParseInt(d, 10, 64)
+		}
+	default:
+		if !isAll(body, "abcdefghijklmnopqrstuvwxyzABCDEFGHIJKLMNOPQRSTUVWXYZ0123456789") {
+			return "", false
+		}
+		// the HTML5 entity table of the Go standard library, names with their semicolon only
+		if u := stdhtml.UnescapeString("&" + body + ";"); u != "&"+body+";" && !strings.HasSuffix(u, ";") {
+			return u, true
+		}
+		return "", false
+	}
+	if v < 0 {
+		return "", false
+	}
+	if v == 0 || v > 0x10ffff || (v >= 0xd800 && v <= 0xdfff) {
+		return "\uFFFD", true
+	}
+	return string(rune(v)), true
+}
+
+func escapeAdjacency(c *Ctx, m mdT, cur *string) {
+	var strs []string
+	n := len(escTokens)
+	for i := 0; i < n; i++ {
+		strs = append(strs, escTokens[i])
+		for j := 0; j < n; j++ {
+			strs = append(strs, escTokens[i]+escTokens[j])
+			for k := 0; k < n; k++ {
+				if c.Quick() && (i*n*n+j*n+k+int(c.Seed))%3 != 0 {
+					continue
+				}
+				strs = append(strs, escTokens[i]+escTokens[j]+escTokens[k])
+			}
+		}
+	}
+	for _, s := range strs {
+		t := stdhtml.EscapeString(specUnescape(s))
+		t = strings.ReplaceAll(strings.ReplaceAll(t, "&#34;", "&quot;"), "&#39;", "'")
+		docs := [][3]string{
+			{"text", "zq " + s + " b\n", "<p>zq " + t + " b</p>\n"},
+			{"title", "[zq](/u \"zq " + s + " b\")\n", "<p><a href=\"/u\" title=\"zq " + t + " b\">zq</a></p>\n"},
+			{"info", "```" + s + "\nzq\n```\n", "<pre><code class=\"language-" + t + "\">zq\n</code></pre>\n"},
+		}
+		for _, d := range docs {
+			c.Count("escape-adjacency-"+d[0], d[1], true)
+			*cur = d[1]
+			got, es, ps := convertSafe(m.md, []byte(d[1]))
+			if es != "" || ps != "" {
+				c.Violate("escape-adjacency", map[string]interface{}{"where": d[0], "markdown": d[1]}, "Convert failed: "+es+ps, "escape-adjacency")
+				continue
+			}
+			if string(got) != d[2] {
+				c.Violate("escape-adjacency", map[string]interface{}{"where": d[0], "markdown": d[1]},
+					fmt.Sprintf("escapes and references in %s: got %.200q want %.200q", d[0], got, d[2]), "escape-adjacency:"+d[0])
+			}
+		}
+	}
 }
 
 // stripContainers removes every leading run of blanks, block-quote markers and list markers;
